@@ -33,6 +33,18 @@ def gen_universe(rng, tier: str = "quick") -> dict:
         ops.append(["restore", {str(n): {"type": 17, "version": proto, "sleeping": rng.random() < 0.5,
                                          "children": {str(c): {"type": 3, "desc": "c"} for c in children}}
                                 for n in rng.sample(nodes, rng.randint(1, len(nodes)))}])
+    elif rng.random() < 0.07:
+        # a network that has (nearly) used up the id space: every id 1..254 taken except a few, with or without the
+        # gateway's own node 0 and a stray 255 - what an installation looks like after years of id requests
+        dense = set(range(1, 255)) - set(rng.sample(range(1, 255), rng.choice([0, 0, 0, 1, 2, 3])))
+        if rng.random() < 0.5:
+            dense.add(0)
+        if rng.random() < 0.2:
+            dense.add(255)
+        ops.append(["restore", {str(n): {"type": 17, "version": proto, "sleeping": False, "children": {}}
+                                for n in sorted(dense)}])
+        for _ in range(rng.randint(1, 4)):
+            ops.append(["line", f"255;255;3;0;3;\n"])
     if cfg["pin"] is None and rng.random() < 0.7:
         ops.append(["line", rng.choice([f"0;255;3;0;2;{proto}\n", f"0;255;0;0;18;{proto}\n", f"0;255;3;0;2;{proto}.0\n"])])
     cur = proto  # protocol the device speaks right now (for the wake signal)
